@@ -1,5 +1,5 @@
 (* C11 — iSIM statistics are exact.  Statements only. *)
-From BB Require Import Model.Sim Proofs.GenTie Gen.GSim.
+From BB Require Import Model.Sim Proofs.GenTieSim Gen.GSim.
 From Coq Require Import ZArith List Reals Permutation.
 From Flocq Require Import Core BinarySingleNaN.
 From Flocq Require Import IEEE754.PrimFloat.
